@@ -862,3 +862,114 @@ pub fn gen_tree(r: &mut Rng, max_nodes: usize, with_panic: bool) -> Tree {
     }
     Tree { nodes }
 }
+
+// ------------------------------------------------------------------------------------------------
+// exhaustive small scope: EVERY instance of a bounded shape, by mixed-radix decoding of an index
+// (no random choice at all). Courses: num_max in 0..=2, num_min in 0..=num_max, fixed or not;
+// participants: every ordered choice list without repetition (penalty = position), instructing no
+// course or one of them; rooms: none or one of a few short lists.
+
+const SMALL_ROOMS: [&[usize]; 3] = [&[1], &[2, 1], &[2, 2]];
+
+fn choice_lists(nc: usize) -> Vec<Vec<usize>> {
+    // all ordered selections without repetition of 0..nc, of every length
+    let mut out: Vec<Vec<usize>> = vec![vec![]];
+    let mut frontier: Vec<Vec<usize>> = vec![vec![]];
+    for _ in 0..nc {
+        let mut next = vec![];
+        for l in &frontier {
+            for c in 0..nc {
+                if !l.contains(&c) {
+                    let mut l2 = l.clone();
+                    l2.push(c);
+                    next.push(l2);
+                }
+            }
+        }
+        out.extend(next.iter().cloned());
+        frontier = next;
+    }
+    out
+}
+
+/// number of instances with `nc` courses and `np` participants in the small scope
+pub fn small_scope_count(nc: usize, np: usize) -> u64 {
+    let per_course = 12u64; // (min, max) in 6 ways, fixed in 2
+    let per_part = (choice_lists(nc).len() * (nc + 1)) as u64;
+    per_course.pow(nc as u32) * per_part.pow(np as u32) * (1 + SMALL_ROOMS.len() as u64)
+}
+
+/// the `idx`-th instance of the small scope; `None` when no participant has choices (outside the
+/// quantifier of the properties)
+pub fn small_scope_instance(nc: usize, np: usize, mut idx: u64) -> Option<Inst> {
+    let lists = choice_lists(nc);
+    let mut take = |radix: u64| -> u64 {
+        let d = idx % radix;
+        idx /= radix;
+        d
+    };
+    let rooms_sel = take(1 + SMALL_ROOMS.len() as u64) as usize;
+    let minmax: [(usize, usize); 6] = [(0, 0), (0, 1), (1, 1), (0, 2), (1, 2), (2, 2)];
+    let mut courses: Vec<CourseDump> = (0..nc)
+        .map(|i| {
+            let (mn, mx) = minmax[take(6) as usize];
+            let fixed = take(2) == 1;
+            CourseDump {
+                index: i,
+                dbid: 100 + i,
+                name: format!("c{}", i),
+                num_max: mx,
+                num_min: mn,
+                instructors: vec![],
+                room_factor: 1.0,
+                room_offset: 0.0,
+                fixed_course: fixed,
+                hidden_participant_names: vec![],
+            }
+        })
+        .collect();
+    let mut parts = vec![];
+    for i in 0..np {
+        let l = &lists[take(lists.len() as u64) as usize];
+        let instr = take(nc as u64 + 1) as usize;
+        if instr > 0 {
+            courses[instr - 1].instructors.push(i);
+        }
+        parts.push(ParticipantDump {
+            index: i,
+            dbid: 200 + i,
+            name: format!("p{}", i),
+            choices: l.iter().enumerate().map(|(pos, c)| (*c, pos as u32)).collect(),
+        });
+    }
+    if parts.iter().all(|p| p.choices.is_empty()) {
+        return None;
+    }
+    Some(Inst { courses, parts, rooms: if rooms_sel == 0 { None } else { Some(SMALL_ROOMS[rooms_sel - 1].to_vec()) } })
+}
+
+/// small scope for the matching routine: the `idx`-th n×n matrix with weights in 0..=2 and every
+/// dummy-row / mandatory-column mask (no skipped rows or columns), by mixed-radix decoding
+pub fn small_scope_matrix_count(n: usize) -> u64 {
+    3u64.pow((n * n) as u32) * (1u64 << n) * (1u64 << n)
+}
+
+pub fn small_scope_matrix(n: usize, mut idx: u64) -> Matrix {
+    let mut take = |radix: u64| -> u64 {
+        let d = idx % radix;
+        idx /= radix;
+        d
+    };
+    let dm = take(1 << n);
+    let mm = take(1 << n);
+    let w: Vec<i32> = (0..n * n).map(|_| take(3) as i32).collect();
+    Matrix {
+        nx: n,
+        ny: n,
+        w,
+        dummy: (0..n).map(|i| dm >> i & 1 == 1).collect(),
+        mand: (0..n).map(|i| mm >> i & 1 == 1).collect(),
+        skipx: vec![false; n],
+        skipy: vec![false; n],
+    }
+}
